@@ -258,7 +258,7 @@ pub fn run(ctx: &Arc<Ctx>) {
     ctx.set_rule("signing: master keys {Annex ks, 1, N-2, seeded, H1(ID), 2^256-H1(ID)+{-1,0,1}} x nonces r (via the RNG seam) {1,2,N-2,Annex r,2^255,seeded x2} at one identity/message, identities {Alice,'',64 bytes,seeded, 12 normalisation-sensitive variants of one name} x message lengths {0,1,20,55,56,64,1024} and every message length 0..=300 (thorough 1200) at one (master, r), key objects holding Ppub-s / ds in Jacobian representations with structured Z (Z in Fp, purely imaginary, generic): (h,S) equals the reference signature for the accepted r (incl. the GM/T 0044.5 example), h in [1,N-1], S on the curve, the library verifies it. Verification: reference-made signatures must be accepted as they are, with S in another Jacobian representation and by a verifier object whose secret field is a dummy (public key only); all 256 single-bit flips of h, h in {0,1,N-1,N,N+1,2^256-1,h+N}, S in {-S,2S,P1,ds,infinity,off-curve,(0,0)}, altered message / identity / master public key must be refused with an error, never a panic.");
     let mut g = SplitMix::new(ctx.seed, "c09");
     // ks = H1(Alice||01): [H1]P2 + Ppub-s is then a doubling inside verification
-    let masters: Vec<(String, BigUint)> = vec![("annex".into(), hb(ANNEX_KS)), ("1".into(), BigUint::one()), ("N-2".into(), &n - 2u32), ("seed".into(), g.nonzero_below(&n)), ("H1(ID)".into(), sm9::h1(b"Alice", sm9::HID_SIGN))];
+    let masters: Vec<(String, BigUint)> = vec![("annex".into(), hb(ANNEX_KS)), ("1".into(), BigUint::one()), ("N-2".into(), &n - 2u32), ("seed".into(), g.nonzero_below(&n)), ("H1(ID)".into(), sm9::h1(b"Alice", sm9::HID_SIGN)), ("N-1".into(), &n - 1u32), ("(H1+ks)^-1=2".into(), (BigUint::from(2u32).modpow(&(&n - 2u32), &n) + &n - sm9::h1(b"Alice", sm9::HID_SIGN)) % &n), ("(H1+ks)^-1=2^64+1".into(), (((BigUint::one() << 64usize) + 1u32).modpow(&(&n - 2u32), &n) + &n - sm9::h1(b"Alice", sm9::HID_SIGN)) % &n)];
     let rs: Vec<(String, BigUint)> = vec![("1".into(), BigUint::one()), ("2".into(), BigUint::from(2u32)), ("N-2".into(), &n - 2u32), ("annex".into(), hb(ANNEX_R)), ("2^255+1".into(), (BigUint::one() << 255usize) + 1u32), ("seed".into(), g.nonzero_below(&(&n - 2u32))), ("seed".into(), g.nonzero_below(&(&n - 2u32)))];
     let ids = ["Alice", "", "len:64", "len:13"];
     let mlens = [0usize, 1, 20, 55, 56, 64, 1024];
